@@ -71,7 +71,7 @@ type CaseResult struct {
 }
 
 const (
-	hangTimeout = 10 * time.Second
+	hangTimeout = 15 * time.Second
 	childASMax  = 8 << 30
 )
 
@@ -416,10 +416,15 @@ func runCase(c *Case) (res CaseResult) {
 		}
 		// goroutine-leak probe: everything the reader started must be gone
 		// shortly after Close.
-		deadline := time.Now().Add(1500 * time.Millisecond)
+		wait := 2 * time.Second
+		if c.Timeout > 0 {
+			// confirmation run in isolation: be generous
+			wait = 12 * time.Second
+		}
+		deadline := time.Now().Add(wait)
 		for runtime.NumGoroutine() > base {
 			if time.Now().After(deadline) {
-				res.Msg = fmt.Sprintf("%d goroutine(s) still alive 1.5s after close; outcome was %s %s", runtime.NumGoroutine()-base, res.Class, res.Msg)
+				res.Msg = fmt.Sprintf("%d goroutine(s) still alive %s after close; outcome was %s %s", runtime.NumGoroutine()-base, wait, res.Class, res.Msg)
 				res.Class = "LEAK"
 				res.Site = blockedSite(base)
 				return res
